@@ -7,6 +7,14 @@ props = [json.loads(l) for l in open('/verif/properties.jsonl')]
 
 # id -> (level, technique, text, note, engine, design_ref)
 CHECKS = {
+ 'C01': ('exploration', 'bounded-exhaustive program enumeration (grammar families up to a node budget) through the real lexer/parser/compiler/VM against an independent reference interpreter',
+         'Every program of each grammar family up to its node budget is rendered to source, run through the real pipeline and through the reference interpreter internal/refsem; value, error class, ordered print/emit log and final globals must agree. Complete within the families and budgets reported in the evidence file.',
+         'Trusted: the reference interpreter (DESIGN Appendix A semantics sheet; constructs outside the sheet are not generated or are skipped as outside-sheet). Programs larger than the node budget are not covered.',
+         'E1 progen+refsem', '4 C01'),
+ 'C04': ('model_checking', 'explicit-state search over (code, ip, stack height) of the compiled bytecode of every generated program, all paths; effect table validated against every instruction the real VM executes',
+         'For every generated program the complete reachable (code, ip, operand-stack height) graph is explored with the invariants one-height-per-ip, no underflow, program ends with exactly its result; the stack-effect table is bound to the implementation by checking every instruction executed by the real VM (step hook) against it; loop skeletons are additionally run at 10 vs >2x/100x stack-capacity iterations against the reference interpreter.',
+         'Trusted: the effect table in internal/bcflow (validated per run by step-hook conformance), the vm step hook (tag verif). Programs outside the generated families are not covered.',
+         'E2 bcflow', '4 C04'),
  'C13': ('exploration', 'bounded-exhaustive enumeration of path strings x operations x layouts against a component-wise containment oracle',
          'Every path string over the 7-segment alphabet up to 5 (quick) / 6 (thorough) segments, absolute/relative, with/without trailing separator, is pushed through os.ResolvePath, through every localfs operation on a real temp tree with sentinels outside the base, and through every VirtualOS operation over 7 mount tables x 4 working directories with recording filesystems; the oracle is an independent component-wise prefix computation. Complete within the stated alphabet and length.',
          'Trusted: the oracle in internal/c13 (filepath.Clean + component-wise prefix); effects observed on a real tmpfs tree. Not covered: segments outside the alphabet, host-planted symlinks.',
